@@ -114,6 +114,7 @@ func vRunPricingCase(c *vPricingCase, strat BidPricingStrategy, panics *int32) (
 	osub, _ := sub.Clone()
 	o := &order{cfg: cfg, orderID: oid, session: venv.NewSession(g, &ptypes.Provider{Owner: prov.String()}), cluster: &vCluster{g: g},
 		bus: bus, sub: osub, log: log.NewNopLogger(), lc: lifecycle.New(), pass: &vPass{g: g}}
+	vs.InitNilMaps(o)
 	go o.run(false)
 	// either a bid is broadcast or the order gives up by itself
 	deadline := time.Now().Add(vOrderTimeout)
